@@ -599,6 +599,8 @@ func main() {
 		e3(strat, false, b)
 		e3(strat, true, b)
 	}
+	runE6(b)
+	res.Info["E6"] = fmt.Sprintf("two requests at once with different candidate sets (5 pairs over 3 endpoints, the first request's first choice answering or refusing), three balancers, production retry loop and shared selector, every interleaving within %d preemptions: each dispatch is to a member of the request's own set, each member at most once", b)
 	d42, d43 := 5, 4
 	if report.Thorough() {
 		d42, d43 = 6, 5
